@@ -163,6 +163,11 @@ func (s *Store) call(method string) bool {
 	return false
 }
 
+// Call / After expose the accounting hooks to command-level models built on
+// the store (one git command = one storage call).
+func (s *Store) Call(method string) bool { return s.call(method) }
+func (s *Store) After()                  { s.after() }
+
 // after is called at the end of a mutating or reading call (crash point).
 func (s *Store) after() {
 	if s.Mode == FaultCrash && s.Calls == s.FailAt {
